@@ -476,6 +476,69 @@ func extractFrame(repo string, files map[string]string) {
 	b.WriteString("/-- (field, kind): fresh:make | fresh:literal | fresh:context.WithCancel | clone | literal | shared | derived:e.x | local:x -/\n")
 	b.WriteString("def loopStateInitKind : List (String × String) := " + pairs(initKind) + "\n\n")
 	b.WriteString("/-- (function, callee): method calls made through objects shared between runs, and shared objects passed as arguments -/\n")
-	b.WriteString("def executableWorkflowSharedCalls : List (String × String) := " + pairs(dedupe(sharedCalls)) + "\n\nend Arca.Gen\n")
+	b.WriteString("def executableWorkflowSharedCalls : List (String × String) := " + pairs(dedupe(sharedCalls)) + "\n\n")
+	b.WriteString("/-- (Type.method, field): assignments through the RECEIVER in the methods of the expression-object types of internal/infer\n" +
+		"    (OneOfExpression, OptionalExpression: they live in the prepared workflow's DAG items and are shared by all runs) -/\n")
+	b.WriteString("def sharedExprReceiverWrites : List (String × String) := " + pairs(dedupe(receiverWrites(repo,
+		[]string{"internal/infer/oneof_expression.go", "internal/infer/optional_expression.go"}))) + "\n\nend Arca.Gen\n")
 	files["Frame.lean"] = b.String()
+}
+
+// receiverWrites lists, for every method with a receiver in the given files, the receiver fields it assigns to (plain
+// assignment, op-assignment, inc/dec, map/slice element of a field, delete on a field).
+func receiverWrites(repo string, rels []string) [][2]string {
+	var out [][2]string
+	for _, rel := range rels {
+		f := parse(repo, rel)
+		for _, d := range f.f.Decls {
+			fd, ok := d.(*ast.FuncDecl)
+			if !ok || fd.Recv == nil || len(fd.Recv.List) == 0 || len(fd.Recv.List[0].Names) == 0 || fd.Body == nil {
+				continue
+			}
+			recv := fd.Recv.List[0].Names[0].Name
+			tname := f.src(fd.Recv.List[0].Type)
+			tname = strings.TrimPrefix(tname, "*")
+			rooted := func(e ast.Expr) (string, bool) {
+				for {
+					switch t := e.(type) {
+					case *ast.SelectorExpr:
+						if id, ok := t.X.(*ast.Ident); ok && id.Name == recv {
+							return t.Sel.Name, true
+						}
+						e = t.X
+					case *ast.IndexExpr:
+						e = t.X
+					case *ast.StarExpr:
+						e = t.X
+					case *ast.ParenExpr:
+						e = t.X
+					default:
+						return "", false
+					}
+				}
+			}
+			ast.Inspect(fd.Body, func(n ast.Node) bool {
+				switch t := n.(type) {
+				case *ast.AssignStmt:
+					for _, l := range t.Lhs {
+						if fld, ok := rooted(l); ok {
+							out = append(out, [2]string{tname + "." + fd.Name.Name, fld})
+						}
+					}
+				case *ast.IncDecStmt:
+					if fld, ok := rooted(t.X); ok {
+						out = append(out, [2]string{tname + "." + fd.Name.Name, fld})
+					}
+				case *ast.CallExpr:
+					if id, ok := t.Fun.(*ast.Ident); ok && id.Name == "delete" && len(t.Args) > 0 {
+						if fld, ok := rooted(t.Args[0]); ok {
+							out = append(out, [2]string{tname + "." + fd.Name.Name, fld})
+						}
+					}
+				}
+				return true
+			})
+		}
+	}
+	return out
 }
